@@ -301,6 +301,30 @@ pub fn check_endpoint(v: &View, e: Side) -> WireOut {
                     if let Some(err) = &block.hpack_error {
                         fail(&mut viol, "C10", "emitted-block-undecodable", format!("{}: {} hpack error {}", e.name(), f.short(), err));
                     }
+                    // ---- C13, generating side: no header section E emits may violate RFC 9113 8.2 / 8.3 field rules
+                    // (whatever the application handed to the send API, the API has to refuse it)
+                    stats.inc(&p("emitted_header_blocks_judged"));
+                    let mut regular_seen = false;
+                    for (n, val) in &block.fields {
+                        let name = String::from_utf8_lossy(n).to_string();
+                        let bad: Option<String> = if n.first() == Some(&b':') {
+                            if regular_seen { Some("pseudo-after-regular".into()) } else { None }
+                        } else {
+                            regular_seen = true;
+                            if n.iter().any(|c| c.is_ascii_uppercase()) {
+                                Some("uppercase-name".into())
+                            } else if matches!(name.as_str(), "connection" | "keep-alive" | "proxy-connection" | "transfer-encoding" | "upgrade") {
+                                Some(format!("connection-specific:{}", name))
+                            } else if name == "te" && val.as_slice() != b"trailers" {
+                                Some("te-not-trailers".into())
+                            } else {
+                                None
+                            }
+                        };
+                        if let Some(b) = bad {
+                            fail(&mut viol, "C13", "malformed-message-emitted", format!("{}: {} carries {} ({}: {})", e.name(), f.short(), b, name, String::from_utf8_lossy(val)));
+                        }
+                    }
                     // size updates must respect the peer's acknowledged HEADER_TABLE_SIZE
                     let allowed = acked.hts.unwrap_or(4096) as u64;
                     for su in &block.size_updates {
